@@ -259,7 +259,22 @@ func appendJsonMarshal(buf *[]byte, v any) {
 		return
 	}
 	bs := bb.Bytes()
-	*buf = append(*buf, bs[:len(bs)-1]...)
+	bs = bs[:len(bs)-1]
+	if utf8.Valid(bs) {
+		*buf = append(*buf, bs...)
+		return
+	}
+	// encoding/json copies what a json.Marshaler returns as it is: bytes that are not UTF-8
+	// (they can only be inside a string) are replaced like appendJsonString does.
+	for len(bs) > 0 {
+		c, size := utf8.DecodeRune(bs)
+		if c == utf8.RuneError && size == 1 {
+			*buf = append(*buf, `\ufffd`...)
+		} else {
+			*buf = append(*buf, bs[:size]...)
+		}
+		bs = bs[size:]
+	}
 }
 
 func appendJsonSource(buf *[]byte, pc uintptr) {
